@@ -47,6 +47,25 @@ func TestC08(t *testing.T) {
 	rec.Rule("rapid-generated rings of 1..5 real LocalNodes (adversarial id layouts) in the ring simulator; scenario pred-nil: the predecessor of a chosen node S is crash-stopped, S runs its predecessor check (predecessor becomes nil) and the next k Notify calls to S are dropped (k generated) so the state persists while every other node repairs its routing; scenario plain: stable ring incl. single node whose predecessor is itself. Then a joiner (id inside S's range, adjacent to S or to its predecessor, uniform, or DUPLICATE of an existing id) runs the real Join through S or another live member. Oracle: no handler panic; valid joiner gets nil or an error with ErrorIsRetryable; duplicate id never joins; afterwards S is Active and serves Put/Get. Non-trivial: predecessor of S was nil or S itself when the join was issued. Distinct = distinct (ids, scenario, S, joiner, entry, k).")
 	rec.Assume("transport errors caused by the crash-stopped node itself are not answers of the contacted node (counted as inconclusive)")
 	const sigPanic = "request-to-join-panics-on-nil-predecessor"
+	// scenario tier: the predecessor is dropped while the join request waits inside the node
+	for i := 0; i < 3; i++ {
+		p, panics := predecessorDroppedWhileJoinWaits()
+		switch {
+		case p == "":
+			rec.Case(true, fmt.Sprintf("scenario:predecessor-dropped-while-join-waits:%d", i), func() any {
+				return map[string]any{"scenario": "predecessor check drops a dead predecessor while a join request waits behind a client write inside the contacted node"}
+			}, "scenario:predecessor-dropped-while-join-waits")
+		case len(p) > 13 && p[:13] == "precondition:":
+			rec.Inconclusive("scenario-precondition")
+			t.Logf("predecessor-dropped scenario: %s", p)
+		default:
+			sig := "join-request-not-answered-cleanly-after-predecessor-dropped"
+			if panics > 0 {
+				sig = "join-request-panics-after-predecessor-dropped-while-waiting"
+			}
+			rec.Fail(t, sig, map[string]any{"schedule": "ring {1<<44, 2<<44, 3<<44}; a client write holds 3<<44's KV barrier; 5<<43's join request enters 3<<44 and waits; 2<<44 crashes and 3<<44's predecessor check drops it; the write finishes", "problem": p}, "%s", p)
+		}
+	}
 	// regression tier: shrunk failures found earlier, replayed without the library
 	for _, p := range c08Regressions {
 		c08Run(t, rec, p, sigPanic)
